@@ -38,6 +38,8 @@ def guess_param(rng, truth, radius, F):
 
 def trl_scenario(rng, ctype, F):
     sc = calgen.Scenario(ctype, 2, 2, F, rng)
+    if rng.random() < 0.5:
+        sc.rotate_tracking()
     f = sc.freqs
     Rt = (0.7 + 0.3 * rng.random()) * np.exp(1j * rng.uniform(-np.pi, np.pi)) \
         * np.exp(-1j * 0.3 * (f - f[0]) / (f[-1] - f[0] + 1.0))
@@ -131,6 +133,8 @@ def near_trl_scenario(rng, ctype, F):
 def lm_scenario(rng, ctype, r, c, F, radius, corr_only=False):
     for _ in range(8):
         sc = calgen.Scenario(ctype, r, c, F, rng)
+        if rng.random() < 0.5:
+            sc.rotate_tracking()
         sc.sufficient_recipe(extras=0)
         ok, kappa = False, None
         sc.choose_entries()
@@ -322,6 +326,8 @@ def work(chunk_id, payload):
     for cid, text in cases:
         res = results[cid]
         path, sc, unk, L, duts, info, settings = meta[cid]
+        if getattr(sc, "rotated", False):
+            bump("scenarios_with_arbitrary_tracking_phases")
         v, inc = R.standard_violations(res, text, PROP)
         part["violations"] += v
         part["inconclusive"] += inc
@@ -371,6 +377,12 @@ def work(chunk_id, payload):
             elif info["iter"] >= 30 and info["tol"] >= 1e-10 and \
                     info["radius"] <= 0.05 and not settings.get("m_error"):
                 bump("failed_in_basin")
+                bump("basin:failed:%s" % sc.ctype)
+                if len(part["samples"]) < 3:
+                    part["samples"].append(dict(
+                        kind="failed-in-basin", type=sc.ctype,
+                        shape="%dx%d" % (sc.r, sc.c), info=str(info)[:300],
+                        event=str(es)[:300]))
             continue
         if info.get("far"):
             bump("far_guess_solves_returned_success")
@@ -379,6 +391,7 @@ def work(chunk_id, payload):
         if path == "lm" and info["iter"] >= 30 and info["tol"] >= 1e-10 and \
                 info["radius"] <= 0.05 and not settings.get("m_error"):
             bump("converged_in_basin")
+            bump("basin:converged:%s" % sc.ctype)
         tol = info["tol"]
         bound = 30 * tol + 1e-10 * (1 + info["kappa"])
         if path == "trl":
@@ -524,6 +537,14 @@ def main():
                       "with guesses within 0.05 of the truth, tolerance >= "
                       "1e-10 and iteration limit >= 30 only %d of %d solves "
                       "converged" % (cin, cin + fin))
+    for ctype in physics.TYPES:
+        c_ = chk.counters.get("basin:converged:%s" % ctype, 0)
+        f_ = chk.counters.get("basin:failed:%s" % ctype, 0)
+        if c_ + f_ >= 8 and f_ > 0.25 * (c_ + f_):
+            chk.violation("C02:lm:does-not-converge-in-basin:%s" % ctype,
+                          "%s: with guesses within 0.05 of the truth, "
+                          "tolerance >= 1e-10 and iteration limit >= 30, %d "
+                          "of %d solves failed" % (ctype, f_, c_ + f_))
     chk.finish(
         rule="TRL: 2x2 T8/U8/TE10/UE10 with through + unknown double reflect + "
              "unknown line (20..160 degrees), guesses within 0.3 / 50 degrees; "
@@ -531,7 +552,9 @@ def main():
              "set plus 1..3 unknowns (single/double reflect, line, partially "
              "unknown matrix) and correlated parameters, tolerances "
              "1e-4..1e-12 (a third with a looser, independent et_tolerance), "
-             "iteration limits 1..100, with/without m_error; "
+             "iteration limits 1..100, with/without m_error; half of the "
+             "error networks get an arbitrary phase on every receiver and "
+             "source path (forward and reverse tracking differ by radians); "
              "15 % have no plain unknown at all (every solved parameter weakly "
              "correlated with a known value); "
              "a fifth of the LM solves start 0.4..1.5 away from the truth "
@@ -545,7 +568,8 @@ def main():
                      "watchdog (60 s, re-run once with 300 s)'",
                      "success is not demanded for small iteration limits; an "
                      "aggregate convergence floor of 50 % inside the basin "
-                     "guards against a solver that never converges"])
+                     "(75 % per error-term type) guards against a solver "
+                     "that never converges"])
 
 
 if __name__ == "__main__":
